@@ -46,6 +46,26 @@ fn main() {
     let mut all: Vec<(Model, Vec<VarDecl>, &'static str)> = corpus().into_iter().map(|(m, d)| (m, d, "corpus")).collect();
     let gens = [(ModelGen { logic: false, arith: true }, "arith"), (ModelGen { logic: true, arith: true }, "mixed"), (ModelGen { logic: true, arith: false }, "logic"), (ModelGen { logic: false, arith: false }, "affine")];
     for i in 0..n { let (g, s) = &gens[i % 4]; let (m, d) = g.model(&mut r); all.push((m, d, s)); }
+    // decimal stream: integer variables bounded by rows with non-dyadic coefficients whose exact quotient is a whole number
+    // (0.9 * x >= 2.7): the derived bound lands a few ulps off the integer, which is what the rounding tolerance of
+    // apply_to_domain exists for
+    for _ in 0..n / 6 {
+        let nv = 1 + r.below(2);
+        let d: Vec<VarDecl> = (0..nv).map(|i| VarDecl { name: ["x", "y"][i].to_string(), ty: VariableType::IntegerRange(r.range(-6, 0) as i32, r.range(4, 10) as i32), used: true }).collect();
+        let mut cs = Vec::new();
+        for (j, v) in d.iter().enumerate() {
+            for _ in 0..1 + r.below(2) {
+                let c = *r.pick(&[0.1, 0.3, 0.7, 0.9, 1.1, 1.3, 2.3, 0.6]) * if r.chance(1, 4) { -1.0 } else { 1.0 };
+                let k = r.range(-3, 6) as f64;
+                let cmp = match r.below(3) { 0 => Comparison::LessOrEqual, 1 => Comparison::GreaterOrEqual, _ => Comparison::LessOrEqual };
+                let lhs = if r.chance(1, 2) { bin(BinOp::Mul, num(c), var(&v.name)) } else { bin(BinOp::Mul, var(&v.name), num(c)) };
+                cs.push(Constraint::new(lhs, cmp, num(c * k), if j == 0 { "".into() } else { format!("r{j}") }));
+            }
+        }
+        let obj = d.iter().fold(num(0.0), |acc, v| bin(BinOp::Add, acc, var(&v.name)));
+        let m = build_model(if r.chance(1, 2) { OptimizationType::Min } else { OptimizationType::Max }, obj, cs, &d);
+        all.push((m, d, &"decimal"));
+    }
 
     std::panic::set_hook(Box::new(|_| {}));
     for (idx, (m, decls, stream)) in all.iter().enumerate() {
